@@ -53,17 +53,32 @@ package index
 // content; bufio.Reader.Read may return short reads; every allocation whose size comes from
 // the input must stay within alloc_budget.
 
-//@ func readVarLenString
+// a length-prefixed string is refused only when bytes it has to consume are missing (or the length is
+// absurd): running into the end of the data while LOOKING AHEAD for the length is not a reason (F18)
+//@ func readVarLenString(r) (n, str, err)
 //@   props C12 C03
 //@   nopanic
-//@   pure
+//@   modifies unmetDemand
 //@   requires r != nil
 //@   alloc_budget 65536
+//@   ensures [refused-only-for-missing-bytes] err != nil ==> unmetDemand
+//@   ensures old(unmetDemand) ==> unmetDemand
+
+// exactly n bytes or an error, and an error only when the source does not hold n bytes (or n is absurd:
+// a demand beyond any source, counted as unmet by definition)
+//@ func readBytes(r, n) (b, err)
+//@   props C12 C03
+//@   nopanic
+//@   modifies unmetDemand
+//@   effect n > 9223372036854775807 ==> unmetDemand
+//@   ensures [refused-only-for-missing-bytes] err != nil ==> (unmetDemand || n > 9223372036854775807)
+//@   ensures old(unmetDemand) ==> unmetDemand
 
 //@ func Snapshot.readSegmentSnapshot
 //@   props C12 C03
 //@   nopanic
 //@   pure
+//@   modifies unmetDemand
 //@   requires br != nil
 //@   alloc_budget 65536
 //@   ensures err == nil ==> ss != nil && fresh(ss)
@@ -74,7 +89,7 @@ package index
 //@   nopanic
 //@   requires br != nil
 //@   alloc_budget 65536
-//@   modifies i.segment, elems(i.segment)
+//@   modifies i.segment, elems(i.segment), unmetDemand
 //@   under_construction i
 //@   ensures [appended-fresh] forall k int :: old(len(i.segment)) <= k && k < len(i.segment) ==> fresh(i.segment[k])
 //@   loop 1
@@ -89,7 +104,7 @@ package index
 //@   modifies i.segment, elems(i.segment)
 //@   under_construction i
 //@   ensures [appended-fresh] forall k int :: old(len(i.segment)) <= k && k < len(i.segment) ==> fresh(i.segment[k])
-//@   modifies decodedOK
+//@   modifies decodedOK, unmetDemand
 //@   effect decodedOK == old(decodedOK) + ite(result1 == nil, 1, 0)
 
 // decodedOK counts snapshot bodies that decoded without error
@@ -116,7 +131,7 @@ package index
 //@ func Writer.loadSnapshot
 //@   props C12 C03 C11
 //@   borrow Data.Read until Closer.Close
-//@   modifies openHandles, bytesEqTrue, decodedOK, segOpened, segReleased
+//@   modifies openHandles, bytesEqTrue, decodedOK, segOpened, segReleased, unmetDemand
 //@   at call Data.Read: assert [trailer-read-only-after-the-body-decoded] decodedOK > old(decodedOK)
 //@   assume_frame
 //@   ensures [crc-gate] (result0 != nil && old(s.config.ValidateSnapshotCRC)) ==> bytesEqTrue > old(bytesEqTrue)
@@ -624,7 +639,7 @@ package index
 
 // the live documents of a segment snapshot: every number below the segment's count that is not deleted
 //@ func segmentSnapshot.DocNumbersLive() (rv)
-//@   props C06
+//@   props C06 C01
 //@   requires s != nil && s.segment != nil
 //@   modifies bmHas
 //@   ensures rv != nil && fresh(rv)
